@@ -24,7 +24,7 @@ RULE = ('threads: 2-4 programs of 1-5 ops from {call probe i under scope s, read
         'operative_config_str, use singleton k through a configurable reference or through '
         'singleton_value} + a schedule = explicit list of thread picks followed by a seeded '
         'PRNG tail (<=600 scheduling steps at source-line granularity inside gin/). sequential: '
-        '1-8 ops from {use singleton k, clear_config + re-parse}. Non-trivial (threads) = the '
+        '1-8 ops from {use singleton k, clear_config + re-parse}, each executed on the main thread or on a long-lived second thread (one at a time). Non-trivial (threads) = the '
         'trace shows >=1 context switch while another thread was inside the singleton '
         'lookup-or-construct or inside the operative-record update / serialisation; (sequential) '
         '= a clear between two uses of one key. Distinct = distinct case JSON.')
@@ -224,25 +224,72 @@ def check_threads(case):
   return ok(labels, nt)
 
 
+class Worker:
+  """A long-lived second thread that executes ops one at a time on request (no concurrency: the
+  requester waits for each op).  Singletons and clear_config are process-wide, not per thread."""
+
+  def __init__(self):
+    import queue  # pylint: disable=g-import-not-at-top
+    import threading  # pylint: disable=g-import-not-at-top
+    self.inq, self.outq = queue.Queue(), queue.Queue()
+    self.thread = threading.Thread(target=self._loop, daemon=True)
+    self.thread.start()
+
+  def _loop(self):
+    while True:
+      fn = self.inq.get()
+      if fn is None:
+        return
+      try:
+        self.outq.put(('ok', fn()))
+      except BaseException as e:  # pylint: disable=broad-except
+        self.outq.put(('err', e))
+
+  def run(self, fn):
+    self.inq.put(fn)
+    status, value = self.outq.get(timeout=60)
+    if status == 'err':
+      raise value
+    return value
+
+  def stop(self):
+    self.inq.put(None)
+
+
 def check_sequential(case):
   gin.clear_config()
   gin.parse_config(CONFIG)
   del CTOR_LOG[:]
   labels = {'kind:sequential'}
+  worker = Worker()
+  try:
+    return _check_sequential(case, labels, worker)
+  finally:
+    worker.stop()
+
+
+def _check_sequential(case, labels, worker):
   current = {}
   seen_after_clear = False
   cleared_keys = set()
   for op in case['ops']:
+    on_worker = len(op) > 3 and op[3] % 2 == 1 if op[0] == 'single' else (
+        len(op) > 2 and op[2] % 2 == 1)
+    run = worker.run if on_worker else (lambda fn: fn())
+    if on_worker:
+      labels.add('op-on-second-thread')
     if op[0] == 'clear':
-      gin.clear_config(clear_constants=bool(op[1] % 2))
-      gin.parse_config(CONFIG)
+      def do_clear():
+        gin.clear_config(clear_constants=bool(op[1] % 2))
+        gin.parse_config(CONFIG)
+      run(do_clear)
       cleared_keys |= set(current)
       current = {}
       labels.add('clear')
       continue
     uses = []
     before = len(CTOR_LOG)
-    do_op(op, [], uses)
+    run(lambda: do_op(op[:3], [], uses))
     key, obj = uses[0]
     if key in current:
       require(obj is current[key], 'singleton-not-reused', key)
@@ -294,8 +341,9 @@ def _threads_case(draw):
 
 @st.composite
 def _sequential_case(draw):
-  op = st.one_of(st.tuples(st.just('single'), st.integers(0, 1), st.integers(0, 1)).map(list),
-                 st.tuples(st.just('clear'), st.integers(0, 1)).map(list))
+  op = st.one_of(st.tuples(st.just('single'), st.integers(0, 1), st.integers(0, 1),
+                           st.integers(0, 1)).map(list),
+                 st.tuples(st.just('clear'), st.integers(0, 1), st.integers(0, 1)).map(list))
   return {'kind': 'sequential', 'ops': draw(st.lists(op, min_size=1, max_size=8))}
 
 
